@@ -287,19 +287,40 @@ theorem PB_attachConv {k : Nat} (s : St) (n c : String) (h : PB k s) : PB k (att
       · have h1 := h.withTag n { t with convs := t.convs ++ [c] } (h.tagOf ht : TB k t)
         exact h1.qset c _ (SB_union (h.q c) (h.tagOf ht).2)
 
-theorem PB_detachConv {k : Nat} (s : St) (n c : String) (h : PB k s) : PB k (detachConv s n c) := by
-  rw [detachConv_eq]
+-- CHANGED (dropped): the named piece `odF` of `outputDropped` keeps the bounds
+theorem TB_odF {k all : Nat} (hk : all ≤ k) (t : Tag) (ht : TB k t) : TB k (MgrTags.odF all t) := by
+  unfold MgrTags.odF
+  split
+  · exact ⟨SB_range hk, ht.2⟩
+  · exact ht
+
+-- CHANGED (dropped): `outputDropped` (new in the model) keeps the bounds: the new pending sets and the
+-- addition to the during-job mask are `rangeSet all`, the snapshot of a started job is a table entry
+theorem PB_outputDropped {k : Nat} (s : St) (choice : Option String) (h : PB k s) :
+    PB k (outputDropped s choice) := by
+  rw [MgrTags.outputDropped_eq]
+  split
+  · apply PB_startTagging
+    have h1 : PB k (inherit { s with tags := s.tags.map fun p => (p.1, MgrTags.odF s.all p.2) }) :=
+      PB_inherit _ (h.tags_eq _ (all_map h.tags _ (fun p hp => TB_odF h.all p.2 hp)))
+    exact PB_invDuring _ _ (SB_range h.all) h1
+  · exact h
+
+-- CHANGED (dropped): `detachConv` takes the tagging choice
+theorem PB_detachConv {k : Nat} (s : St) (n c : String) (choice : Option String) (h : PB k s) :
+    PB k (detachConv s n c choice) := by
+  unfold detachConv
   split
   · exact h
   · next t ht =>
-    unfold dc2
     simp only []
     have h1 := h.withTag n { t with convs := t.convs.filter (· != c) } (h.tagOf ht : TB k t)
-    have h2 := h1.qset c (diff ((sget (setTag s n { t with convs := t.convs.filter (· != c) }).toconv c).getD [])
-      (diff t.mat (othersOf (setTag s n { t with convs := t.convs.filter (· != c) }).tags n c)))
-      (SB_diff _ (h1.q c))
+    have h2 := h1.qset c (inter ((sget (setTag s n { t with convs := t.convs.filter (· != c) }).toconv c).getD [])
+      (List.foldl (fun acc (x : String × Tag) => if x.1 != n && x.2.convs.contains c then union acc x.2.mat else acc)
+        ([] : IdSet) (setTag s n { t with convs := t.convs.filter (· != c) }).tags))
+      (SB_inter _ (h1.q c))
     split
-    · exact h2.congr rfl rfl rfl rfl rfl rfl rfl rfl rfl
+    · exact PB_outputDropped _ _ (h2.congr rfl rfl rfl rfl rfl rfl rfl rfl rfl)
     · exact h2
 
 theorem PB_qadd1 {k : Nat} (X : IdSet) (hX : SB k X) (s : St) (c : String) (h : PB k s) : PB k (qadd1 X s c) :=
@@ -535,8 +556,8 @@ theorem pb_delTag {k : Nat} (s : St) (st : Started) (name : String) (h : PB k s)
     · exact h
     · simp only []
       refine PB_foldl _ (fun s r hs => PB_delRefBy s r name hs) _ _ ?_
-      have h1 : PB k (t.convs.foldl (fun s c => detachConv s name c) s) :=
-        PB_foldl _ (fun s c hs => PB_detachConv s name c hs) _ _ h
+      have h1 : PB k (t.convs.foldl (fun s c => detachConv s name c st.tag) s) :=
+        PB_foldl _ (fun s c hs => PB_detachConv s name c st.tag hs) _ _ h
       exact h1.tags_eq _ (fun p hp => h1.tags p (List.mem_filter.1 hp).1)
 
 theorem pb_addTag {k : Nat} (s : St) (st : Started) (name color defn : String) (f : Facts) (h : PB k s)
@@ -628,7 +649,7 @@ theorem pb_updConv {k : Nat} (s : St) (st : Started) (name : String) (convs : Li
     · simp only []
       apply PB_startConverter
       refine PB_foldl _ (fun s c hs => PB_attachConv s name c hs) _ _ ?_
-      exact PB_foldl _ (fun s c hs => PB_detachConv s name c hs) _ _ h
+      exact PB_foldl _ (fun s c hs => PB_detachConv s name c st.tag hs) _ _ h
 
 theorem pb_importDone {k : Nat} (s : St) (st : Started) (processed usednew : Nat)
     (created : List (Nat × List Nat)) (upd rst add : List Nat) (h : PB k s)
